@@ -7,10 +7,16 @@ import (
 	"github.com/jmattheis/goverter/xtype"
 )
 
+// useConstructorFor reports whether the default constructor of the method applies to this conversion:
+// it does for the conversion of the method's own source and target type only.
+func useConstructorFor(ctx *MethodContext, source, target *xtype.Type) bool {
+	return ctx.UseConstructor &&
+		types.Identical(ctx.Conf.Source.T, source.T) &&
+		types.Identical(ctx.Conf.Target.T, target.T)
+}
+
 func buildTargetVar(gen Generator, ctx *MethodContext, sourceID *xtype.JenID, source, target *xtype.Type, errPath ErrorPath) ([]jen.Code, *jen.Statement, *Error) {
-	if !ctx.UseConstructor ||
-		!types.Identical(ctx.Conf.Source.T, source.T) ||
-		!types.Identical(ctx.Conf.Target.T, target.T) {
+	if !useConstructorFor(ctx, source, target) {
 		name := ctx.Name(target.ID())
 		variable := jen.Var().Id(name).Add(target.TypeAsJen())
 		ctx.SetErrorTargetVar(jen.Id(name))
